@@ -146,15 +146,14 @@ theorem c04_StoryAppend (rc base : Xml) : C04Out .StoryAppend rc base := by
   rw [cKids_story _ _ _ rfl]
   simp [keptOf, Kind.dedups, namedOf]
 
-theorem c04_StoryInsert (rc base : Xml)
-    (htim : storiesExc rc = none) : C04Out .StoryInsert rc base := by
+theorem c04_StoryInsert (rc base : Xml) : C04Out .StoryInsert rc base := by
   unfold C04Out
   simp only [mergeRc]
   rw [findRequired_ok "story" none rc.kids _]
   cases hl : locate "story" rc.kids (elemId (some base) "storyID") with
   | none => left; rfl
   | some i =>
-    simp only [htim]
+    simp only
     obtain ⟨key, a, x, b, hid, hcs, hal, hx1, hx2, ha⟩ := locate_split hl
     subst hal
     rw [roStoryIds_eq]
@@ -168,14 +167,13 @@ theorem c04_StoryInsert (rc base : Xml)
     rw [cKids_story _ _ _ rfl]
     rfl
 
-theorem c04_EAStoryInsert (rc base : Xml)
-    (htim : storiesExc rc = none) : C04Out .EAStoryInsert rc base := by
+theorem c04_EAStoryInsert (rc base : Xml) : C04Out .EAStoryInsert rc base := by
   unfold C04Out
   simp only [mergeRc, elemsOf_eq]
   rw [findTarget_ok "story" none rc.kids _]
   cases hid : elemId (base.find "element_target") "storyID" with
   | none =>
-    simp only [htim, Option.getD_none, roStoryIds_eq, insertDedup_closed_end]
+    simp only [Option.getD_none, roStoryIds_eq, insertDedup_closed_end]
     right
     unfold GrpPay
     simp only [Kind.group]
@@ -187,7 +185,7 @@ theorem c04_EAStoryInsert (rc base : Xml)
     cases hl : locate "story" rc.kids (some key) with
     | none => left; rfl
     | some i =>
-      simp only [htim, Option.getD_some]
+      simp only [Option.getD_some]
       obtain ⟨key', a, x, b, hid', hcs, hal, hx1, hx2, ha⟩ := locate_split hl
       subst hal
       rw [roStoryIds_eq]
@@ -462,10 +460,8 @@ theorem payload_any (i : MergeInput) (h : DomC04 i = true) :
   obtain ⟨d, m, k⟩ := i
   unfold DomC04 at h
   simp only [Bool.and_eq_true] at h
-  obtain ⟨⟨hwf, htim⟩, hsh⟩ := h
+  obtain ⟨hwf, hsh⟩ := h
   obtain ⟨rc, hrc⟩ := wfRO_unpack_w hwf
-  have htim' : storiesExc rc = none := by
-    simpa [TimingOk, hrc] using htim
   obtain ⟨base, hb⟩ : ∃ base, m.find k.baseTag = some base := by
     cases hb : m.find k.baseTag with
     | none => simp [shaped, hb] at hsh
@@ -482,8 +478,8 @@ theorem payload_any (i : MergeInput) (h : DomC04 i = true) :
         show C04Out k rc base
         cases k <;> first | exact absurd hg (by decide) | skip
         case StoryAppend => exact c04_StoryAppend rc base
-        case StoryInsert => exact c04_StoryInsert rc base htim'
-        case EAStoryInsert => exact c04_EAStoryInsert rc base htim'
+        case StoryInsert => exact c04_StoryInsert rc base
+        case EAStoryInsert => exact c04_EAStoryInsert rc base
         case StoryReplace => exact c04_StoryReplace rc base
         case EAStoryReplace => exact c04_EAStoryReplace rc base
         case ItemInsert => exact c04_ItemInsert rc base
